@@ -13,6 +13,14 @@ CLAIMED = {
             "Seeded exploration: every run sends one generated request (well-formed / unambiguously malformed / grey) as the first segment of a fresh simulated connection to the real Ohkami::howl + Session::manage; the dump a root fang produces through the public accessors is compared with an independent reference parse; panics, hangs (quiescence with a complete message delivered) and acceptance of malformed input are violations. EOF/FIN/silence are injected at every byte offset. Sampling, not proof.",
             "Trusts the facade tokio (read/read_exact/write_all semantics), the reference request model (DESIGN.md A.1) and the independent response parser; heads <= 1023 bytes for class W; whole input arrives in one read (segmentation is C06).",
             "reference request parser + refusal rules + quiescence (hang) detection"),
+    "C05": ("DESIGN.md 5.C05",
+            "Seeded exploration, metamorphic oracle: 1..3 keep-alive connections carrying 2..12 generated requests each (bodies with NUL bytes, sizes around the 1 KiB buffer, context-setting requests, param routes, a malformed request in the middle, Connection: close at any position) run against the real session loop; response k must equal, byte for byte after masking Date, the response to the same request alone on a fresh connection in the same world, and that baseline is itself checked against the reference model. Sessions interleave under the tape-driven scheduler.",
+            "Trusts the facade tokio, the response parser and the reference model; one segment per request (the property's own framing); malformed requests in the middle are < 1 KiB.",
+            "metamorphic comparison against fresh-connection baseline + reference request model + leak probes"),
+    "C06": ("DESIGN.md 5.C06",
+            "Seeded exploration, metamorphic oracle: the same generated request sequence is delivered on a baseline connection and on 1..3 further connections under tape-chosen TCP deliveries (cuts anywhere in head and body, coalescing, pipelining, delays from 0 to seconds, short reads, different task schedules); every delivery must produce the baseline's responses and terminate. One listed known finding (pipelining, KF-C06-2) is guarded in the main pass and re-entered deliberately in a hazard pass where any unlisted signature is still a violation.",
+            "Trusts the facade tokio's read semantics (arbitrary 1..n byte returns are legal for TCP), the response parser and the C02 reference model for the baseline.",
+            "metamorphic comparison of deliveries of one byte stream under injected segmentation/short-read/delay faults"),
 }
 
 NOT_YET = "check not built yet in this round (work in progress; see DESIGN.md section 11 build order)"
